@@ -19,6 +19,7 @@ pub mod c15;
 pub mod c16;
 pub mod c17;
 pub mod c18;
+pub mod c19;
 pub mod c20;
 
 pub fn run(ctx: &Ctx) -> i32 {
@@ -41,6 +42,7 @@ pub fn run(ctx: &Ctx) -> i32 {
         "C16" => c16::run(ctx),
         "C17" => c17::run(ctx),
         "C18" => c18::run(ctx),
+        "C19" => c19::run(ctx),
         "C20" => c20::run(ctx),
         other => {
             eprintln!("unknown property {}", other);
@@ -69,6 +71,7 @@ pub fn replay(prop: &str, op: &str, case: &Value, acc: &mut Acc) -> bool {
         "C16" => c16::replay(op, case, acc),
         "C17" => c17::replay(op, case, acc),
         "C18" => c18::replay(op, case, acc),
+        "C19" => c19::replay(op, case, acc),
         "C20" => c20::replay(op, case, acc),
         _ => false,
     }
